@@ -84,6 +84,24 @@ def fn_was_changed(unit, f):
     return any(it['status'] != 'identical' for it in cands)
 
 
+def fn_proof_perturbed(unit, f):
+    """True when every changed source item the Verus function f can denote was restructured (statements added, removed or
+    moved) in a way that dropped a proof statement or left one next to changed text: a proof that fails then says nothing
+    about the code (two harmless edits - an if/else flipped, a single-use temporary inlined - failed exactly so)."""
+    if any(it['kind'] != 'fn' and it['status'] != 'identical' for it in unit.items):
+        return False
+    segs = f.split('::')
+    fname = segs[-1]
+    tname = segs[-2] if len(segs) > 1 and '%' not in segs[-2] else None
+    cands = [it for it in unit.items if it['kind'] == 'fn' and it['path'].split(' :: ')[-1] == 'fn ' + fname]
+    if tname is not None:
+        c2 = [it for it in cands if re.search(r'\b%s\b' % re.escape(tname), it['path'])]
+        if c2:
+            cands = c2
+    ch = [it for it in cands if it['status'] != 'identical']
+    return bool(ch) and all(it.get('restructured') and it.get('perturbed') for it in ch)
+
+
 def sha(path):
     try:
         return hashlib.sha256(open(path, 'rb').read()).hexdigest()
@@ -286,6 +304,11 @@ def run_check(pid, pc, tier, seed, repo, work, t0, replay):
                     continue
                 if f not in exp and f != '(unnamed)':
                     undecided.append('unit %s: %s failed but is not an obligation of the ledger' % (u, f))
+                    continue
+                if fn_proof_perturbed(r.unit, f):
+                    undecided.append('unit %s: %s failed, but the edit restructured the function (statements added, removed or moved) '
+                                     'and took proof annotations with it or left them next to changed text: the failed proof is no '
+                                     'evidence about the code' % (u, f))
                     continue
                 if pat is None or re.search(pat, f):
                     items = []
